@@ -23,6 +23,7 @@ ExactOK(e) ==
   IF D!ZeroDivisor(e.v) THEN ~e.panic /\ ~e.ok
   ELSE IF ~D!LeadNonzero(e.v) THEN TRUE
   ELSE /\ ~e.panic /\ e.ok /\ e.fits
+       /\ (Has(e, "synced") => e.synced)         \* sequences on one object: its coefficients are the current ones
        /\ D!Identity(e.u, e.v, e.q, e.r)
        /\ D!RemainderOK(e.v, e.r)
        /\ LET f == D!DivRun(e.u, e.v) IN f.pc = "ok" /\ QSame(f.q, e.q) /\ QSame(f.r, e.r) /\ f.count <= D!StepLimit(e.u, e.v)
